@@ -43,7 +43,7 @@ for mid in sorted(os.listdir(root)):
     for tier in ('quick', 'thorough'):
         p = os.path.join(d, 'caught.%s.txt' % tier)
         if not os.path.exists(p): continue
-        for line in open(p):
+        for line in open(p, errors='replace'):
             m = re.match(r'^(C\d+) (CAUGHT|missed|trouble)(.*)', line)
             if not m: continue
             pid, what, rest = m.groups()
